@@ -161,160 +161,6 @@ func checkForeign(r *report.Run, x []byte, label string) bool {
 	return true
 }
 
-// mutate produces one structure-aware mutant of a valid bundle's encoding.
-func mutate(rng *report.Rand, m model.Bundle) ([]byte, string) {
-	m = m.Clone()
-	opts := &model.EncodeOpts{}
-	kind := rng.Intn(13)
-	switch kind {
-	case 0: // primary uint field -> boundary
-		v := model.GenUInt(rng)
-		switch rng.Intn(7) {
-		case 0:
-			m.Version = v
-		case 1:
-			m.Flags = v
-		case 2:
-			m.CRC = v % 5
-		case 3:
-			m.Time = v
-		case 4:
-			m.Seq = v
-		case 5:
-			m.Lifetime = v
-		case 6:
-			m.FragOff, m.Total = v, model.GenUInt(rng)
-		}
-		return encode(m, opts), "primary-field"
-	case 1: // block header field -> boundary
-		i := rng.Intn(len(m.Blocks))
-		v := model.GenUInt(rng)
-		switch rng.Intn(4) {
-		case 0:
-			m.Blocks[i].Type = v
-			m.Blocks[i].RawContent = m.Blocks[i].Content()
-		case 1:
-			m.Blocks[i].Num = v
-		case 2:
-			m.Blocks[i].Flags = v
-		case 3:
-			m.Blocks[i].CRC = v % 5
-		}
-		return encode(m, opts), "block-field"
-	case 2: // non-minimal head somewhere
-		_, lay := m.Encode(nil)
-		total := len(lay.Heads) * 6
-		opts.Widen = map[int]int{rng.Intn(total + 1): []int{1, 2, 4, 8}[rng.Intn(4)]}
-		if rng.Bool() {
-			opts.Widen[rng.Intn(total+1)] = []int{1, 2, 4, 8}[rng.Intn(4)]
-		}
-		return encode(m, opts), "non-minimal-head"
-	case 3: // array-length edits of the primary block
-		switch rng.Intn(3) {
-		case 0:
-			opts.FragFieldsAlways = true
-		case 1:
-			opts.NoFragFields = true
-		case 2:
-			opts.PrimaryNoCRCField = true
-		}
-		return encode(m, opts), "primary-arity"
-	case 4: // canonical block without its CRC element / wrong CRC length
-		i := rng.Intn(len(m.Blocks))
-		if rng.Bool() {
-			opts.BlockNoCRCField = map[int]bool{i: true}
-		} else {
-			opts.BadCRCLen = map[int]int{rng.Intn(len(m.Blocks) + 1): rng.Intn(6)}
-		}
-		return encode(m, opts), "crc-arity"
-	case 5: // bytes after the block-type-specific data item inside the block's byte string
-		i := rng.Intn(len(m.Blocks))
-		c := m.Blocks[i].Content()
-		m.Blocks[i].RawContent = append(append([]byte{}, c...), rng.Bytes(1+rng.Intn(4))...)
-		return encode(m, opts), "content-trailing"
-	case 6: // truncated / random content
-		i := rng.Intn(len(m.Blocks))
-		c := m.Blocks[i].Content()
-		if len(c) > 0 && rng.Bool() {
-			m.Blocks[i].RawContent = append([]byte{}, c[:rng.Intn(len(c))]...)
-		} else {
-			m.Blocks[i].RawContent = rng.Bytes(rng.Intn(12))
-		}
-		if m.Blocks[i].RawContent == nil {
-			m.Blocks[i].RawContent = []byte{}
-		}
-		return encode(m, opts), "content-garbled"
-	case 7: // reorder blocks
-		p := rng.Perm(len(m.Blocks))
-		nb := make([]model.Block, len(p))
-		for i, j := range p {
-			nb[i] = m.Blocks[j]
-		}
-		m.Blocks = nb
-		return encode(m, opts), "reorder"
-	case 8: // duplicate a block (same or fresh number)
-		i := rng.Intn(len(m.Blocks))
-		d := m.Blocks[i]
-		if rng.Bool() {
-			d.Num = 1000 + uint64(rng.Intn(1000))
-		}
-		pos := rng.Intn(len(m.Blocks))
-		m.Blocks = append(m.Blocks[:pos], append([]model.Block{d}, m.Blocks[pos:]...)...)
-		return encode(m, opts), "duplicate"
-	case 9: // endpoint edits
-		e := []model.EID{model.DtnNone(), model.Dtn("", "x"), model.Dtn("bad node", ""), model.Ipn(0, 1), model.Ipn(1, 0),
-			{Scheme: 3, INode: 1, IServ: 1}, model.Dtn("n", "a\nb"), model.GenEID(rng, true)}[rng.Intn(8)]
-		switch rng.Intn(4) {
-		case 0:
-			m.Dst = e
-		case 1:
-			m.Src = e
-		case 2:
-			m.Rpt = e
-		case 3:
-			for i := range m.Blocks {
-				if m.Blocks[i].Type == model.TPrevNode {
-					m.Blocks[i].Node = e
-				}
-			}
-		}
-		return encode(m, opts), "endpoint"
-	case 10: // hop count / age semantics
-		for i := range m.Blocks {
-			switch m.Blocks[i].Type {
-			case model.THopCount:
-				m.Blocks[i].Count = uint8(rng.Intn(256))
-			case model.TAge:
-				m.Blocks[i].U = model.GenUInt(rng)
-			}
-		}
-		return encode(m, opts), "hop-age"
-	case 11: // byte flips on an encoding without CRCs
-		for i := range m.Blocks {
-			m.Blocks[i].CRC = 0
-		}
-		m.CRC = 0
-		x := encode(m, opts)
-		for k := 0; k < 1+rng.Intn(3); k++ {
-			x[rng.Intn(len(x))] ^= byte(1 << uint(rng.Intn(8)))
-		}
-		return x, "byte-flip-no-crc"
-	default: // drop a block / the payload / append after break
-		if rng.Bool() && len(m.Blocks) > 1 {
-			i := rng.Intn(len(m.Blocks))
-			m.Blocks = append(m.Blocks[:i], m.Blocks[i+1:]...)
-			return encode(m, opts), "drop-block"
-		}
-		x := encode(m, opts)
-		return append(x, rng.Bytes(1+rng.Intn(3))...), "after-break"
-	}
-}
-
-func encode(m model.Bundle, o *model.EncodeOpts) []byte {
-	x, _ := m.Encode(o)
-	return x
-}
-
 func TestCheck(t *testing.T) {
 	bubble.Quiet()
 	bubble.RegisterBlocks()
@@ -499,7 +345,7 @@ func TestCheck(t *testing.T) {
 				o.SmallOnly = true
 			}
 			m := model.GenBundle(rng, o)
-			x, kind := mutate(rng, m)
+			x, kind := model.Mutate(rng, m)
 			acc := checkForeign(r, x, kind)
 			if acc {
 				r.Count("mutants.accepted."+kind, 1)
